@@ -8,7 +8,7 @@ TPROF_KINDS = ['constant', 'sine', 'pgauss_up', 'pgauss_down', 'pgauss_rand', 'c
 TPROF_FORMS = ['callable', 'callable', 'callable', 'array', 'list', 'scalar', 'int']
 FPROF_KINDS = ['box', 'gaussian', 'multi', 'lorentzian', 'voigt', 'sinc2_c_t', 'sinc2_f_t', 'sinc2_c_n', 'sinc2_f_n', 'custom_abs']
 BP_KINDS = ['none', 'scalar', 'constant', 'cos', 'array']
-BOUND_KINDS = ['none', 'none', 'inside', 'clip_lo', 'clip_hi', 'below', 'above', 'empty', 'full']
+BOUND_KINDS = ['none', 'none', 'inside', 'clip_lo', 'clip_hi', 'below', 'above', 'empty', 'full', 'open_hi', 'open_lo', 'open']
 
 
 def gen_geometry(rng, tier, small=False):
@@ -172,4 +172,11 @@ def gen_bounding(rng, g, kind):
     if kind == 'empty':
         a = int(rng.integers(0, F + 1))
         return [fr(a + 0.2), fr(a - 0.2)]
+    # "everything above / below / everywhere", written with an infinite bound
+    if kind == 'open_hi':
+        return [fr(int(rng.integers(0, F)) + off()), float('inf')]
+    if kind == 'open_lo':
+        return [float('-inf'), fr(int(rng.integers(1, F + 1)) + off())]
+    if kind == 'open':
+        return [float('-inf'), float('inf')]
     raise ValueError(kind)
